@@ -105,10 +105,12 @@ struct Chan {
     // ---- monitor state (implementation-only oracle) ----
     /// every byte the harness fed towards the compio side, in order
     fed: Vec<u8>,
-    /// bytes handed to read-like operations on this channel, in completion order
+    /// bytes handed to read-like operations on this channel (splice: moved out), in stream order
     consumed: Vec<u8>,
-    /// payload bytes completed write-like operations reported as written, in completion order
-    written: Vec<u8>,
+    /// what each completed read-like operation delivered
+    segments: Vec<Vec<u8>>,
+    /// payload each completed write-like operation reported as written
+    wsegs: Vec<Vec<u8>>,
     /// payload bytes the harness drained from the far end
     drained: Vec<u8>,
 }
@@ -154,7 +156,7 @@ fn mk_chan(kind: &str, content: &[u8]) -> Chan {
         }
         _ => panic!("chan kind"),
     };
-    Chan { kind: k, near, far, fed: content.to_vec(), consumed: vec![], written: vec![], drained: vec![] }
+    Chan { kind: k, near, far, fed: content.to_vec(), consumed: vec![], segments: vec![], wsegs: vec![], drained: vec![] }
 }
 
 // ---------------------------------------------------------------------------------------------
@@ -203,6 +205,13 @@ impl<T: OpCode + 'static> Pending for Held<T> {
     }
 }
 
+/// concatenate the non-empty pieces ordered by where their first byte occurs in `stream`
+fn in_stream_order(pieces: &[Vec<u8>], stream: &[u8]) -> Vec<u8> {
+    let mut ps: Vec<&Vec<u8>> = pieces.iter().filter(|p| !p.is_empty()).collect();
+    ps.sort_by_key(|p| stream.iter().position(|b| *b == p[0]).unwrap_or(usize::MAX));
+    ps.into_iter().flatten().copied().collect()
+}
+
 fn errno(e: &std::io::Error) -> i32 {
     e.raw_os_error().unwrap_or(0)
 }
@@ -229,15 +238,21 @@ fn fin_read(ptr: usize, cap: usize) -> impl FnOnce(std::io::Result<usize>, Vec<u
         }
         let res = canon(res);
         let n = *res.as_ref().unwrap_or(&0);
-        if buf.len() != n {
-            complaints.push(format!("C02:len-mismatch buffer len {} but result {:?}", buf.len(), res));
+        // the driver-level operation does not touch the length (the callers do `set_len`)
+        if buf.len() != 0 {
+            complaints.push(format!("C02:len-mismatch buffer len {} changed by the driver", buf.len()));
         }
         // nothing beyond the reported bytes may have been written
         let all = unsafe { std::slice::from_raw_parts(buf.as_ptr(), buf.capacity()) };
-        if all[n.min(all.len())..].iter().any(|b| *b != CANARY) {
+        if n > all.len() {
+            complaints.push(format!("C02:own-result result {n} exceeds the buffer capacity {}", all.len()));
+        }
+        let n = n.min(all.len());
+        if all[n..].iter().any(|b| *b != CANARY) {
             complaints.push(format!("C02:canary bytes beyond the reported count {n} were overwritten"));
         }
-        Done { res, data: Some(buf[..n.min(buf.len())].to_vec()), complaints }
+        let data = all[..n].to_vec();
+        Done { res, data: Some(data), complaints }
     }
 }
 
@@ -342,38 +357,44 @@ impl World {
         let mut gate = None;
         let pushed = match kind.clone() {
             Kind::Read(c, cap) => {
+                let fd = self.near(c);
                 let (buf, ptr, cap) = read_buf(cap);
                 let f = fin_read(ptr, cap);
-                push_op(&mut self.p, Read::new(Fdw(self.near(c)), buf), move |BufResult(r, op)| f(r, op.into_inner()))
+                push_op(&mut self.p, Read::new(Fdw(fd), buf), move |BufResult(r, op)| f(r, op.into_inner()))
             }
             Kind::ReadF(c, cap) => {
+                let fd = self.near(c);
                 let (buf, ptr, cap) = read_buf(cap);
                 let f = fin_read(ptr, cap);
-                push_op(&mut self.p, Read::new(Fdw(self.near(c)), buf), move |BufResult(r, op)| f(r, op.into_inner()))
+                push_op(&mut self.p, Read::new(Fdw(fd), buf), move |BufResult(r, op)| f(r, op.into_inner()))
             }
             Kind::Recv(c, cap) => {
+                let fd = self.near(c);
                 let (buf, ptr, cap) = read_buf(cap);
                 let f = fin_read(ptr, cap);
-                push_op(&mut self.p, Recv::new(Fdw(self.near(c)), buf, RecvFlags::empty()), move |BufResult(r, op)| {
+                push_op(&mut self.p, Recv::new(Fdw(fd), buf, RecvFlags::empty()), move |BufResult(r, op)| {
                     f(r, op.into_inner())
                 })
             }
             Kind::ReadAt(c, off, cap) => {
+                let fd = self.near(c);
                 let (buf, ptr, cap) = read_buf(cap);
                 let f = fin_read(ptr, cap);
-                push_op(&mut self.p, ReadAt::new(Fdw(self.near(c)), off, buf), move |BufResult(r, op)| {
+                push_op(&mut self.p, ReadAt::new(Fdw(fd), off, buf), move |BufResult(r, op)| {
                     f(r, op.into_inner())
                 })
             }
             Kind::Write(c, data) => {
+                let fd = self.near(c);
                 let buf = data.clone();
                 let f = fin_write(buf.as_ptr() as usize, data);
-                push_op(&mut self.p, Write::new(Fdw(self.near(c)), buf), move |BufResult(r, op)| f(r, op.into_inner()))
+                push_op(&mut self.p, Write::new(Fdw(fd), buf), move |BufResult(r, op)| f(r, op.into_inner()))
             }
             Kind::Send(c, data) => {
+                let fd = self.near(c);
                 let buf = data.clone();
                 let f = fin_write(buf.as_ptr() as usize, data);
-                push_op(&mut self.p, Send::new(Fdw(self.near(c)), buf, SendFlags::empty()), move |BufResult(r, op)| {
+                push_op(&mut self.p, Send::new(Fdw(fd), buf, SendFlags::empty()), move |BufResult(r, op)| {
                     f(r, op.into_inner())
                 })
             }
@@ -385,7 +406,8 @@ impl World {
                     if op.into_inner().0 != fd {
                         complaints.push("C02:buffer-identity PollOnce returned another descriptor".to_string());
                     }
-                    Done { res: canon(r), data: None, complaints }
+                    // io_uring reports the poll mask, the polling driver 0: canonicalised to 0
+                    Done { res: canon(r).map(|_| 0), data: None, complaints }
                 })
             }
             Kind::Splice(a, b, len) => {
@@ -450,13 +472,13 @@ impl World {
         let kind = self.ops[&id].kind.clone();
         match (&kind, &d.res) {
             (Kind::Read(c, _) | Kind::Recv(c, _), Ok(_)) => {
-                self.chans.get_mut(c).unwrap().consumed.extend_from_slice(d.data.as_deref().unwrap_or(&[]));
+                self.chans.get_mut(c).unwrap().segments.push(d.data.clone().unwrap_or_default());
             }
             (Kind::Write(c, data) | Kind::Send(c, data), Ok(n)) => {
                 if *n > data.len() {
                     ex.fail("C02:own-result", format!("op {id}: wrote {n} of {} bytes", data.len()));
                 }
-                self.chans.get_mut(c).unwrap().written.extend_from_slice(&data[..(*n).min(data.len())]);
+                self.chans.get_mut(c).unwrap().wsegs.push(data[..(*n).min(data.len())].to_vec());
             }
             (Kind::ReadAt(c, off, cap), Ok(n)) => {
                 let content = &self.chans[c].fed;
@@ -473,13 +495,13 @@ impl World {
             }
             (Kind::Splice(a, b, _), Ok(n)) => {
                 // the spliced bytes leave channel a's stream and enter channel b's
-                let start = self.chans[a].consumed.len();
+                let start: usize = self.chans[a].segments.iter().map(|s| s.len()).sum();
                 let moved: Vec<u8> = self.chans[a].fed.get(start..start + n).map(|s| s.to_vec()).unwrap_or_default();
                 if moved.len() != *n {
                     ex.fail("C02:own-result", format!("op {id}: splice reports {n} bytes, only {} were available", moved.len()));
                 }
-                self.chans.get_mut(a).unwrap().consumed.extend_from_slice(&moved);
-                self.chans.get_mut(b).unwrap().written.extend_from_slice(&moved);
+                self.chans.get_mut(a).unwrap().segments.push(moved.clone());
+                self.chans.get_mut(b).unwrap().wsegs.push(moved);
             }
             _ => {}
         }
@@ -614,23 +636,39 @@ impl World {
         }
     }
 
+    fn drain_all(&mut self) {
+        for ch in self.chans.values_mut() {
+            if let (Some(far), ChanKind::WPipe | ChanKind::Sock) = (&ch.far, &ch.kind) {
+                let rest: Vec<u8> = sys_read_all(far.as_raw_fd()).into_iter().filter(|b| *b != FILLER).collect();
+                ch.drained.extend_from_slice(&rest);
+            }
+        }
+    }
+
     /// stream monitors: nothing swapped, lost or duplicated on any channel
     fn check_streams(&mut self, ex: &mut Exec) {
+        // draining the far ends lets blocked writers finish: collect their results too, then drain again
+        self.drain_all();
+        self.settle();
+        let ids: Vec<usize> = self.ops.iter().filter(|(_, o)| o.pending.is_some()).map(|(i, _)| *i).collect();
+        for id in ids {
+            let _ = self.try_pop(id, ex);
+        }
+        self.drain_all();
         for (c, ch) in self.chans.iter_mut() {
             if matches!(ch.kind, ChanKind::File) {
                 continue;
             }
+            // payload bytes are unique per case, so the pieces can be put back into stream order
+            ch.consumed = in_stream_order(&ch.segments, &ch.fed);
             if !ch.fed.starts_with(&ch.consumed) {
-                ex.fail("C02:result-swapped", format!("channel {c}: reads delivered {} but the stream fed was {}", hex(&ch.consumed), hex(&ch.fed)));
+                ex.fail("C02:result-swapped", format!("channel {c}: reads delivered {:?}, which is not a partition of a prefix of the stream fed {}", ch.segments.iter().map(|s| hex(s)).collect::<Vec<_>>(), hex(&ch.fed)));
             }
             // what the operations reported as written must be exactly what arrives at the far end
-            if let Some(far) = &ch.far {
-                if matches!(ch.kind, ChanKind::WPipe | ChanKind::Sock) {
-                    let rest: Vec<u8> = sys_read_all(far.as_raw_fd()).into_iter().filter(|b| *b != FILLER).collect();
-                    ch.drained.extend_from_slice(&rest);
-                    if ch.drained != ch.written {
-                        ex.fail("C02:own-result", format!("channel {c}: completed writes claim {} but the far end received {}", hex(&ch.written), hex(&ch.drained)));
-                    }
+            if matches!(ch.kind, ChanKind::WPipe | ChanKind::Sock) {
+                let written = in_stream_order(&ch.wsegs, &ch.drained);
+                if ch.drained != written {
+                    ex.fail("C02:own-result", format!("channel {c}: completed writes claim {:?} but the far end received {}", ch.wsegs.iter().map(|s| hex(s)).collect::<Vec<_>>(), hex(&ch.drained)));
                 }
             }
         }
@@ -663,6 +701,18 @@ impl World {
 }
 
 fn exec(case: &Case) -> Exec {
+    match hx_common::catch(|| exec_inner(case)) {
+        Ok(ex) => ex,
+        Err(msg) => {
+            let mut ex = Exec::new();
+            ex.out = case.lines.iter().map(|_| format!("harness-panic {msg}")).collect();
+            ex.fail("C02:harness-panic", msg);
+            ex
+        }
+    }
+}
+
+fn exec_inner(case: &Case) -> Exec {
     let mut ex = Exec::new();
     let mut w: Option<World> = None;
     let mut tokens: BTreeMap<usize, Cancel> = BTreeMap::new();
@@ -1056,9 +1106,10 @@ fn gen_random(rng: &mut Rng, idx: usize) -> Case {
                 g.lines.push(format!("drain {c}"));
                 g.sends.insert(c, 0);
                 if iour {
+                    let was_busy = g.busy.contains(&(c, false));
                     g.lines.push("settle".into());
                     g.busy.retain(|x| *x != (c, false));
-                    if g.rng.chance(1, 4) {
+                    if g.rng.chance(1, 4) && (!was_busy || k == "sock") {
                         g.lines.push(format!("fill {c}"));
                     }
                 } else if g.rng.chance(1, 4) {
@@ -1068,7 +1119,9 @@ fn gen_random(rng: &mut Rng, idx: usize) -> Case {
         } else if roll < 84 {
             g.polls();
         } else if roll < 88 {
-            if matches!(k, "rpipe" | "sock") && !eof.contains(&c) && g.rng.chance(1, 2) {
+            // (end-of-stream on sockets is left out: what a half-closed AF_UNIX peer reports to a
+            // writability poll is kernel detail the OS model does not claim)
+            if k == "rpipe" && !eof.contains(&c) && g.rng.chance(1, 2) {
                 eof.push(c);
                 g.lines.push(format!("eof {c}"));
                 if iour {
@@ -1186,7 +1239,7 @@ fn gen_bidir(rng: &mut Rng, idx: usize) -> Case {
     lines.push("waker 1".into());
     lines.push(p.into());
     let order = rng.below(3);
-    let feed = format!("feed 0 {}", hex(&rng.bytes(rng.range(1, 12) as usize).iter().map(|b| b | 1).map(|b| if b == FILLER { 1 } else { b }).collect::<Vec<_>>()));
+    let feed = format!("feed 0 {}", hex(&{ let n = rng.range(1, 12) as usize; rng.bytes(n) }.iter().map(|b| b | 1).map(|b| if b == FILLER { 1 } else { b }).collect::<Vec<_>>()));
     match order {
         0 => {
             lines.push(feed);
@@ -1266,7 +1319,7 @@ fn gen_splice(rng: &mut Rng, idx: usize, order: u64) -> Case {
     lines.push("push 1 read 2 4".into());
     lines.push(format!("push 0 splice 0 1 {}", rng.range(1, 20)));
     lines.push("poll".into());
-    let data = hex(&rng.bytes(rng.range(1, 10) as usize).iter().map(|b| (b | 1) & 0x7f).collect::<Vec<_>>());
+    let data = hex(&{ let n = rng.range(1, 10) as usize; rng.bytes(n) }.iter().map(|b| (b | 1) & 0x7f).collect::<Vec<_>>());
     if order == 0 {
         // input first, then output
         lines.push(format!("feed 0 {data}"));
